@@ -14,6 +14,7 @@
 #include <setjmp.h>
 #include <signal.h>
 #include <sys/mman.h>
+#include <sys/time.h>
 #include <unistd.h>
 #include <utility>
 #include <type_traits>
@@ -399,6 +400,32 @@ static void add_violation(ShuffleStats& st, const std::string& key, const std::s
   st.violations.push_back("{\"key\":" + jstr(key) + ",\"what\":" + jstr(what) + ",\"case\":" + std::to_string(idx) + "}");
 }
 
+static sigjmp_buf g_wd_jmp;
+static volatile sig_atomic_t g_wd_armed = 0;
+static void wd_handler(int) {
+  if (g_wd_armed) { g_wd_armed = 0; siglongjmp(g_wd_jmp, 1); }
+}
+static void wd_arm(unsigned ms) {
+  struct sigaction sa;
+  memset(&sa, 0, sizeof sa);
+  sa.sa_handler = wd_handler;
+  sa.sa_flags = SA_NODEFER;
+  sigemptyset(&sa.sa_mask);
+  sigaction(SIGALRM, &sa, nullptr);
+  struct itimerval it;
+  memset(&it, 0, sizeof it);
+  it.it_value.tv_sec = ms / 1000;
+  it.it_value.tv_usec = (ms % 1000) * 1000;
+  g_wd_armed = 1;
+  setitimer(ITIMER_REAL, &it, nullptr);
+}
+static void wd_disarm() {
+  struct itimerval it;
+  memset(&it, 0, sizeof it);
+  g_wd_armed = 0;
+  setitimer(ITIMER_REAL, &it, nullptr);
+}
+
 static void emit_line(const std::string& s) { fputs(s.c_str(), stdout); fputc('\n', stdout); fflush(stdout); }
 
 static int mode_shuffle(const Args& args) {
@@ -773,12 +800,21 @@ static int mode_shuffle(const Args& args) {
     }
 
     // ---- emit ----
-    CodeHolder code;
+    CodeHolder* code_ptr = new CodeHolder();
+    CodeHolder& code = *code_ptr;
+    struct CodeGuard { CodeHolder* p; bool keep; ~CodeGuard() { if (!keep) delete p; } } code_guard{code_ptr, false};
+    bool hung = false;
     if (exec) code.init(g_rt->environment(), g_rt->cpu_features());
     else code.init(env);
     size_t off_prolog = 0, off_assign = 0;
     Error e1 = Error::kOk;
-    if (is_x86) {
+    FileLogger dbg_logger(stderr);
+    if (args.has("log")) code.set_logger(&dbg_logger);
+    if (sigsetjmp(g_wd_jmp, 1) != 0) {
+      hung = true;   // emit_* did not return within the watchdog period; everything it allocated is abandoned
+    }
+    else if (is_x86) {
+      wd_arm(400);
       x86::Assembler a(&code);
       e1 = a.emit_prolog(frame);
       off_prolog = a.offset();
@@ -803,14 +839,27 @@ static int mode_shuffle(const Args& args) {
         }
       }
       if (e1 == Error::kOk) e1 = a.emit_epilog(frame);
+      wd_disarm();
     }
     else {
+      wd_arm(400);
       a64::Assembler a(&code);
       e1 = a.emit_prolog(frame);
       off_prolog = a.offset();
       if (e1 == Error::kOk) e1 = a.emit_args_assignment(frame, asg);
       off_assign = a.offset();
       if (e1 == Error::kOk) e1 = a.emit_epilog(frame);
+      wd_disarm();
+    }
+    if (hung) {
+      code_guard.keep = true;
+      st.rejects["hang"]++;
+      emit_line(head + ",\"err\":\"hang\"}");
+#if defined(__SANITIZE_ADDRESS__)
+      fflush(stdout);
+      _exit(98);     // abandoned allocations would only produce leak reports; the caller restarts after this case
+#endif
+      continue;
     }
     {
       char b[256];
@@ -851,6 +900,11 @@ static int mode_shuffle(const Args& args) {
       uint8_t* area = g_stack + kStackSize - 4096 - asz;
       area = (uint8_t*)(uintptr_t(area) & ~uintptr_t(63));
       for (uint32_t i = 0; i < asz + 64; i++) area[i] = uint8_t(junk.next());
+      // the frame of the function under test is built below `area`: make sure it does not start out as zeros
+      {
+        uint64_t* q = (uint64_t*)(area - 16384);
+        for (uint32_t i = 0; i < 16384 / 8; i++) q[i] = junk.next();
+      }
       for (auto& x : vals) {
         uint32_t sz = TypeUtils::size_of(x.src.type_id());
         if (x.src.is_indirect()) continue;   // passed by reference: the shuffler does not support it, nothing to place
@@ -1278,6 +1332,8 @@ int mode_interop(const Args& args) {
       sig.set_ret(e.ret);
       for (TypeId t : e.args) sig.add_arg(t);
       std::string text = std::string(conv_names[cv]) + " " + sig_text(sig);
+      // gcc (hidden pointer) and clang (ymm0/zmm0) disagree on how ms_abi returns 256/512-bit vectors: no oracle
+      if (cv == 1 && TypeUtils::size_of(e.ret) > 16) continue;
 
       // ---- direction A: JIT caller -> C callee ----
       {
